@@ -319,7 +319,10 @@ def evaluate(u, slices=8):
 
 def run_harness(c, u, expect, mode, keep, prune_interval, hists, procs, full_every, tag):
     wd = V.workdir(PID, "run_" + tag, fresh=True)
-    chunks = [hists[i::procs] for i in range(procs) if hists[i::procs]]
+    # service mode: at most 12 histories per process (the indexer service of every history's node stays alive
+    # until the process ends); direct mode frees everything per history
+    nchunks = max(procs, (len(hists) + 11) // 12) if mode == "service" else procs
+    chunks = [hists[i::nchunks] for i in range(nchunks) if hists[i::nchunks]]
     jobs = []
     for ci, chunk in enumerate(chunks):
         used = sorted({v for h in chunk for v in h["exp"].values()})
